@@ -163,6 +163,7 @@ type Outcome struct {
 	ReaderFired bool
 	EndlessReads int
 	WriterStalled bool
+	ReaderStalled bool
 	ReaderErr   error
 	WriterFired bool
 	WriterErr   error
@@ -226,6 +227,10 @@ func opOptions(op Op, ctx context.Context, target string) []gtree.Option {
 		if op.NilCtx {
 			opts = append(opts, gtree.WithMassive(nil)) // documented: nil means context.Background()
 		} else {
+			if op.Decoys {
+				// the option given twice: the later context is the one that counts
+				opts = append(opts, gtree.WithMassive(context.Background()))
+			}
 			opts = append(opts, gtree.WithMassive(ctx))
 		}
 	}
@@ -288,6 +293,7 @@ func opOptions(op Op, ctx context.Context, target string) []gtree.Option {
 
 // invoke calls the public entry point selected by op.
 func invoke(op Op, w io.Writer, r io.Reader, root *gtree.Node, cb *simCallback, opts []gtree.Option) error {
+	r = asGiven(r)
 	switch op.Kind {
 	case "output":
 		if op.FromRoot {
@@ -463,6 +469,7 @@ func collect(out *Outcome, rd *simReader, wr *simWriter, cb *simCallback, d *sim
 	out.StaleNodes = cb.staleNodes()
 	out.ReaderFired, out.ReaderErr = rd.Fired, rd.Err
 	out.EndlessReads, out.WriterStalled = rd.EndlessReads, wr.Stalled
+	out.ReaderStalled = rd.Stalled
 	out.WriterFired, out.WriterErr = wr.Fired, wr.Err
 	out.WriterRefused = wr.Refused
 	out.CbFired, out.CbErr = cb.Fired, cb.Err
